@@ -138,6 +138,7 @@ byte viol = 0;
 #define E_KILLTERM 29   /* kill -TERM <main daemon pid> from inside the phase */
 #define E_KILLINT 30
 #define E_ENVFAIL 31    /* the transferred environment does not evaluate */
+#define E_NFDIE 32      /* `nonfatal die -n msg || :` -- returns non-zero, writes no protocol line, phase goes on */
 
 #ifndef FULLREQ
 #define FULLREQ NREQ
@@ -671,6 +672,10 @@ end_idle:	if
 					nev = 0;
 					do
 					:: sub_died -> sub_fail = 1; break
+					:: !sub_died && nev == 0 -> HREC(E_NFDIE); printf("DEV %d nfdie\n", cur); nev = NEV
+						/* exit-handling.bash die(): the -n / PKGCORE_NONFATAL early return comes before
+						 * the "dying" notification: nothing is written; only the terminal follows
+						 * (keeps the session count down) */
 					:: !sub_died && nev < NEV -> HREC(E_IPC_OK); printf("DEV %d ipc_ok\n", cur); nev++;
 						d_ipc(0)
 					:: !sub_died && nev < NEV -> HREC(E_IPC_ERR); printf("DEV %d ipc_err\n", cur); nev++;
